@@ -23,7 +23,7 @@ import (
 )
 
 // actual contents (what the command under test "produced")
-var contents = []string{"", "x\n", "x y\n", "x", "-- m --\n", "a\n-- m --\n", ">q\n", "-- m --", "\n", "x\r\n", "a\n-- m --", "-- x\n", "y\n-- --\n-- a -- b\n"}
+var contents = []string{"", "x\n", "x y\n", "x", "-- m --\n", "a\n-- m --\n", ">q\n", "-- m --", "\n", "x\r\n", "a\n-- m --", "-- x\n", "y\n-- --\n-- a -- b\n", "r\r\n-- m --\r\nb\r\n"}
 
 type cmpLine struct {
 	Kind    string `json:"kind"` // stdout | stderr | file | outside | cmpenv | neg | respell
@@ -41,6 +41,9 @@ type scase struct {
 	// End: a line after the comparisons that ends the script early and passed
 	// ("stop", also behind a condition)
 	End string `json:"end,omitempty"`
+	// Again: the first comparison is made a second time, with the same actual
+	// content against the same golden entry
+	Again bool `json:"again,omitempty"`
 }
 
 func (c scase) String() string {
@@ -57,6 +60,9 @@ func (c scase) String() string {
 			m = "match"
 		}
 		p = append(p, fmt.Sprintf("%s:%q:%s", l.Kind, contents[l.Content], m))
+	}
+	if c.Again {
+		p = append(p, "first-comparison-again")
 	}
 	if c.End != "" {
 		p = append(p, c.End)
@@ -127,6 +133,21 @@ func build(c scase) (string, bool) {
 		files = append(files, txtar.File{Name: fmt.Sprintf("mid%d", i), Data: []byte(fmt.Sprintf("untouched %d\n> keep\n", i))})
 	}
 	files = append(files, txtar.File{Name: "sub/keep", Data: nil}, txtar.File{Name: "post", Data: []byte("untouched post\n")})
+	if c.Again {
+		l := c.Lines[0]
+		switch l.Kind {
+		case "stdout":
+			fmt.Fprintf(&script, "emit stdout %d\ncmp stdout g0\n", l.Content)
+		case "stderr":
+			fmt.Fprintf(&script, "emit stderr %d\ncmp stderr g0\n", l.Content)
+		case "file":
+			fmt.Fprintf(&script, "cmp act0 g0\n")
+		case "respell":
+			fmt.Fprintf(&script, "emit stdout %d\ncmp stdout g0\n", l.Content)
+		default:
+			return "", false
+		}
+	}
 	if c.End != "" {
 		// the script ends here, passed; the line after it must not matter
 		fmt.Fprintf(&script, "%s\ncmp pre post\n", c.End)
@@ -468,6 +489,13 @@ func realMain() {
 		}
 		dupLines = append(dupLines, cmpLine{k, 1, true})
 	}
+	// the first comparison is made twice
+	for _, a := range dupLines {
+		cases = append(cases, scase{Lines: []cmpLine{a}, Again: true})
+		for _, b := range dupLines {
+			cases = append(cases, scase{Lines: []cmpLine{a, b}, Again: true})
+		}
+	}
 	// the script is ended early by stop after the comparisons
 	for _, end := range []string{"stop", "[linux] stop", "stop reason"} {
 		for _, a := range dupLines {
@@ -532,7 +560,7 @@ func realMain() {
 	wg.Wait()
 	r.Set("evaluations", done)
 	r.Set("distinct_nontrivial", st.updated)
-	r.Set("rule", "every script with 1 or 2 comparison lines (thorough: 3 over a reduced alphabet) from 7 kinds (cmp stdout / stderr / file against an archive golden, the same golden through another path spelling, negated cmp, cmpenv, cmp against a file outside the archive) x 13 actual contents (empty, no final newline, marker lines, lines that start like a marker but are none, quoted-looking, CRLF, unquotable) x golden matching or not; untouched entries before, between and after; batches of two scripts in one RunT call; archives that repeat the first golden's name; scripts ended early by stop after the comparisons. non-trivial = golden entries actually rewritten and verified, counted")
+	r.Set("rule", "every script with 1 or 2 comparison lines (thorough: 3 over a reduced alphabet) from 7 kinds (cmp stdout / stderr / file against an archive golden, the same golden through another path spelling, negated cmp, cmpenv, cmp against a file outside the archive) x 14 actual contents (empty, no final newline, marker lines, a CRLF marker line, lines that start like a marker but are none, quoted-looking, CRLF, unquotable) x golden matching or not; untouched entries before, between and after; batches of two scripts in one RunT call; archives that repeat the first golden's name; scripts ended early by stop after the comparisons; scripts that make their first comparison twice. non-trivial = golden entries actually rewritten and verified, counted")
 	r.Set("golden_entries_rewritten_and_verified", st.updated)
 	r.Set("of_which_quoted", st.quoted)
 	r.Set("entries_verified_untouched", st.untouched)
